@@ -175,6 +175,26 @@ def check(recipe) -> list[Fail]:
                 mol.add_atom(a, coord)
                 q = None
             model.add(a, coord, q)
+        elif name == "add_existing":
+            # add_atom with an Atom object that is ALREADY in the molecule.  What that means is the library's business; asserted is only:
+            # if the library REFUSES such a call (probed on a throw-away molecule), the refusal leaves rows, charges and atoms as they were
+            if n < 1:
+                continue
+            probe, pa = cls(), newatom(0)
+            probe.add_atom(pa, [0.0, 0.0, 0.0])
+            try:
+                probe.add_atom(pa, [1.0, 1.0, 1.0])
+                refuses = False
+            except Exception:
+                refuses = True
+            if not refuses:
+                continue
+            try:
+                mol.add_atom(model.atoms[op[1] % n], [0.5, 0.5, 0.5])
+                return [Fail("add_atom-of-a-present-atom-refused-on-the-probe-but-accepted-here", f"step {step}")]
+            except Exception:
+                pass
+            name = "add_existing(refused)"
         elif name == "new_atom":
             a = mol.new_atom(ELS[op[1] % len(ELS)], None, op[2], label=f"L{next(nlabel)}")
             model.add(a, op[2], None)
@@ -441,6 +461,7 @@ def _ops(maxlen):
         st.tuples(st.just("bond_two_foreign"), _i, _i).map(list),
         st.tuples(st.just("self_bond"), _i).map(list),
         st.tuples(st.just("self_bond_foreign"), _i, _i).map(list),
+        st.tuples(st.just("add_existing"), _i).map(list),
         st.tuples(st.just("set_charge"), _i, st.floats(-2, 2, width=32)).map(list),
         st.just(["scribble_clone"]),
         st.tuples(st.just("sub_del_bond"), st.lists(_i, min_size=2, max_size=5), _i).map(list),
@@ -476,7 +497,7 @@ _ALPHA = [
     ["append_bond_readopt", 0, 0, True], ["append_bond_steal", 1, 1, False],
     ["sub_del_bond", [0, 1, 2], 0],
     ["del_bond", 0], ["remove_substituent", 0, True], ["remove_substituent", 0, False], ["add_implicit_hydrogens"], ["sub_write", [0, 2], 1.5], ["view_reuse", 0, 0.5], ["bond_two_foreign", 4, 1], ["self_bond", 0],
-    ["set_charge", 1, 0.75], ["scribble_clone"], ["self_bond_foreign", 2, 0],
+    ["set_charge", 1, 0.75], ["scribble_clone"], ["self_bond_foreign", 2, 0], ["add_existing", 1],
 ]
 
 
@@ -497,5 +518,5 @@ LEGS = [
     Leg("hist", check, classify, strategy=strat, n={"quick": 4000, "thorough": 40000}, shards={"quick": 16, "thorough": 32},
         rule="Hypothesis-generated edit histories (<=40 ops over add_atom / new_atom / del_atom by object|index|label|Element / connect / append_bond(s) / extend_bonds incl. foreign atoms / del_bond / remove_substituent / add_implicit_hydrogens / substructure write / re-use of a kept substructure view after later edits) on Molecule and Structure, started from empty, generated, cloned and bundled-mol2 molecules; " + _NT),
     Leg("short", check, classify, enumerate=enum_short, exhaustive=True, shards={"quick": 16, "thorough": 64},
-        rule="ALL op sequences of length <=3 (quick) / <=4 (thorough) over a 28-letter op alphabet from a 3-atom start x {Molecule, Structure} x {built, cloned}; " + _NT),
+        rule="ALL op sequences of length <=3 (quick) / <=4 (thorough) over a 29-letter op alphabet from a 3-atom start x {Molecule, Structure} x {built, cloned}; " + _NT),
 ]
